@@ -301,6 +301,7 @@ func parentMain(prop *Property, tier string, seed int64, verifDir string, nworke
 		if !r.Exhaustive {
 			exhaustive = false
 			caps[r.CapHit]++
+			fmt.Printf("  not exhaustive (%s): %s [%d executions, %.0fs]\n", r.CapHit, r.Scenario, r.Evals, r.WallS)
 		}
 		for k, v := range r.Extra {
 			extra[k] += v
